@@ -65,6 +65,7 @@ def parseOp : List String → Option Op
   | ["ballast", k] => k.toNat?.map .ballast
   | ["diskok", b] => (parseBool? b).map .diskOk
   | ["bad", r] => r.toNat?.map .bad
+  | ["erase", now, over] => do some (.erase (← now.toNat?) (← parseBool? over))
   | ["race", r, n1, n2, rid, ok, _kind] => do some (.tickRace (← r.toNat?) (← n1.toNat?) (← n2.toNat?) (← rid.toNat?) (← parseBool? ok))
   | _ => none
 
